@@ -26,6 +26,7 @@ struct lbuf {
 	char *ln_glob;		/* line global mark */
 	int ln_n;		/* number of lines in ln[] */
 	int ln_sz;		/* size of ln[] */
+	int mod_lo;		/* lowest line changed since lbuf_modlo() */
 	int useq;		/* current operation sequence */
 	struct lopt *hist;	/* buffer history */
 	int hist_sz;		/* size of hist[] */
@@ -145,6 +146,7 @@ static void lbuf_replace(struct lbuf *lb, char *s, int pos, int n_del)
 {
 	int n_ins = linecount(s);
 	int i;
+	lb->mod_lo = MIN(lb->mod_lo, pos);
 	while (lb->ln_n + n_ins - n_del >= lb->ln_sz) {
 		int nsz = lb->ln_sz + (lb->ln_sz ? lb->ln_sz : 512);
 		char **nln = malloc(nsz * sizeof(nln[0]));
@@ -392,6 +394,14 @@ int lbuf_modified(struct lbuf *lb)
 void lbuf_globset(struct lbuf *lb, int pos, int dep)
 {
 	lb->ln_glob[pos] |= 1 << dep;
+}
+
+/* return the lowest line changed since the last call and start again from lo */
+int lbuf_modlo(struct lbuf *lb, int lo)
+{
+	int old = lb->mod_lo;
+	lb->mod_lo = lo;
+	return old;
 }
 
 /* return and clear ex global command mark */
